@@ -1,6 +1,7 @@
 """./check configuration for C12 (see verif_props.py)."""
 
-PROP = {'module': 'GolibsVerif.Theorems.C12',
+PROP = {'technique': 'Lean models of the net/netip pieces with conversion, mask and comparator theorems (strict weak order, order under SORT-1), machine-checked counterexample for the mapped-IPv6 membership gap; differential tie',
+ 'module': 'GolibsVerif.Theorems.C12',
  'namespace': 'GolibsVerif.C12',
  'rule': 'one case = one call of IPToAddr / IPToAddrNoMapped / IPNetToPrefix(+NoMapped) / NetAddrToAddrPort / PreferIPv4|6 / '
          'slices.SortFunc, or one std.* comparison of a stdlib model; non-trivial = the conversion succeeds, or fails past the nil/length '
